@@ -20,6 +20,11 @@ TARGETS = {
     "C11": ([H, A64L], [t for t in extract.ALL_TARGETS if "arm" not in t.split("-")[0] and "thumb" not in t]),
     "C04": ([H], list(extract.ALL_TARGETS)),
     "C05": ([H, "x86_64-pc-windows-msvc"], list(extract.ALL_TARGETS)),
+    "C06": ([H], [H]),
+    "C07": ([H], [H]),
+    "C08": ([H], [H]),
+    "C09": ([H], [H]),
+    "C14": ([H], [H]),
     "C10": ([H, A64L, ARM], list(extract.ALL_TARGETS)),
     "C15": ([A64L, "aarch64-apple-darwin"], [A64L, "aarch64-apple-darwin", "aarch64-pc-windows-msvc"]),
 }
